@@ -142,6 +142,9 @@ def register(E):
         return False
     I['@verifPanics'] = v_panics
 
+    I['@verifPatchClock'] = lambda E, a: (lambda E2, a2: None)
+    I['@verifClockLast'] = lambda E, a: E.clock_last if E.clock_last is not None else 0
+
     def v_stop(E, args):
         raise GoExit()
     I['@verifStop'] = v_stop
@@ -777,9 +780,10 @@ def register(E):
 
     # ---------------------------------------------------------------- time (clock)
     def time_since_ns(E):
-        """symbolic clock reading: nanoseconds since signatureReferenceDate, non-decreasing, in [0, 2^62)"""
+        """symbolic clock reading: nanoseconds since signatureReferenceDate (2015-01-01), non-decreasing, and below
+        2^48 * 10 us (year 2104), the range in which the 48-bit MAVLink timestamp is defined"""
         v = E.add_nondet('bv', 64)
-        E.add(z3.ULT(v, BV(1 << 62, 64)))
+        E.add(z3.ULT(v, BV((1 << 48) * 10000, 64)))
         if E.clock_last is not None:
             E.add(z3.UGE(v, E.clock_last))
         E.clock_last = v
